@@ -142,6 +142,17 @@ func (h *RealtimeHandler) HandleSignedLatency(ctx context.Context, respond hwebs
 
 	}
 
+	// A measurement that is still running is given up for the new one: its
+	// request is answered too.
+	if sl := h.currentParticipant.SignedLatency; sl.PingRequests != nil && sl.Iteration > 0 {
+		respond.Send(&hagallpb.ErrorResponse{
+			Type:      hagallpb.MsgType_MSG_TYPE_ERROR_RESPONSE,
+			Timestamp: timestamppb.Now(),
+			RequestId: sl.RequestID,
+			Code:      hagallpb.ErrorCode_ERROR_CODE_CONFLICT,
+		})
+	}
+
 	h.currentParticipant.SignedLatency.Start(h.PrivateKey, respond, req.RequestId, req.IterationCount,
 		h.currentSession.SessionUUID, h.clientID, req.WalletAddress)
 
